@@ -76,9 +76,13 @@ structure Segment where
   epoch : Nat
 deriving Repr, Inhabited
 
+/-- `Segment::new`, with the epoch it starts counting from (0 in `Segment::new` itself; the fixed
+    `Reassembly::receive_packet` overwrites it with the epoch floor) -/
+def Segment.newAt (epoch : Nat) : Segment :=
+  { header := none, blocks := 0, frags := #[], tdl := 0, timeout := Elvis.Gen.TLB, epoch := epoch }
+
 /-- `Segment::new` -/
-def Segment.new : Segment :=
-  { header := none, blocks := 0, frags := #[], tdl := 0, timeout := Elvis.Gen.TLB, epoch := 0 }
+def Segment.new : Segment := Segment.newAt 0
 
 /-- putting the datagram together from the pieces in pop order.
     original code: plain concatenation.  fixed code: the first
@@ -158,24 +162,31 @@ inductive Result
   | incomplete (timeout : Nat) (id : BufId) (epoch : Nat)
 deriving Repr
 
+/-- second half of `Reassembly::receive_packet`: the fragment goes into the buffer `seg` of `id` -/
+def Reassembly.receiveInto (cfg : Cfg) (r : Reassembly) (id : BufId) (seg : Segment) (h : Hdr)
+    (body : List UInt8) : Except String (Reassembly × Result) :=
+  match seg.receive cfg h body with
+  | .error e => .error e
+  | .ok (seg', some (hd, msg)) =>
+    -- (16) free all reassembly resources
+    .ok (({ r with segments := insert id seg' r.segments } : Reassembly).free cfg id, .complete hd msg)
+  | .ok (seg', none) =>
+    .ok ({ r with segments := insert id seg' r.segments }, .incomplete seg'.timeout id seg'.epoch)
+
+/-- the buffer a fragment for `id` goes into: (6)(7) `entry(buf_id).or_insert(Segment::new())`
+    (the fixed code starts a new buffer at the epoch floor) -/
+def Reassembly.bufferFor (cfg : Cfg) (r : Reassembly) (id : BufId) : Segment :=
+  match lookup id r.segments with
+  | some s => s
+  | none => Segment.newAt (if cfg.floor then r.floor else 0)
+
 /-- `Reassembly::receive_packet` -/
 def Reassembly.receive (cfg : Cfg) (r : Reassembly) (h : Hdr) (body : List UInt8) :
     Except String (Reassembly × Result) :=
   let id := BufId.ofHdr h
   -- (2) IF FO = 0 AND MF = 0 : flush, submit
   if isLast h.flags && h.fragOffset = 0 then .ok (r.free cfg id, .complete h body)
-  else
-    -- (6)(7) entry(buf_id).or_insert(Segment::new())
-    let seg := match lookup id r.segments with
-      | some s => s
-      | none => { Segment.new with epoch := if cfg.floor then r.floor else 0 }
-    match seg.receive cfg h body with
-    | .error e => .error e
-    | .ok (seg', some (hd, msg)) =>
-      -- (16) free all reassembly resources
-      .ok (({ r with segments := insert id seg' r.segments } : Reassembly).free cfg id, .complete hd msg)
-    | .ok (seg', none) =>
-      .ok ({ r with segments := insert id seg' r.segments }, .incomplete seg'.timeout id seg'.epoch)
+  else r.receiveInto cfg id (r.bufferFor cfg id) h body
 
 /-- `Reassembly::maybe_cull_segment` -/
 def Reassembly.maybeCull (cfg : Cfg) (r : Reassembly) (id : BufId) (epoch : Nat) : Reassembly :=
